@@ -11,6 +11,7 @@ import (
 	"io"
 	"net"
 	"os"
+	"runtime"
 	"strconv"
 	"sync"
 	"syscall"
@@ -1160,6 +1161,8 @@ type Listener struct {
 	dl         time.Time
 	// Refuse makes Dial to this listener fail (a peer that does not accept).
 	Refuse bool
+	// AcceptSpin: Accept yields this many times between dequeuing a connection and returning it.
+	AcceptSpin int
 }
 
 func (l *Listener) String() string {
@@ -1265,7 +1268,13 @@ func (l *Listener) AcceptConn() (*Conn, error) {
 		if len(l.backlog) > 0 {
 			c := l.backlog[0]
 			l.backlog = l.backlog[1:]
+			spin := l.AcceptSpin
 			l.mu.Unlock()
+			for i := 0; i < spin; i++ {
+				// a few microseconds of real time between taking the connection and handing it
+				// to the caller: whatever races with Accept gets a chance to run in between
+				runtime.Gosched()
+			}
 
 			return c, nil
 		}
@@ -1453,6 +1462,14 @@ func (n *Net) DialTCPFrom(laddr, raddr *net.TCPAddr) (*Conn, error) {
 	n.streamLog = append(n.streamLog, StreamEvent{Time: time.Now(), Conn: ca.ID, Kind: "dial"})
 	n.mu.Unlock()
 	l.mu.Lock()
+	if l.closed {
+		// the listener went away between the lookup and the handshake: the kernel resets
+		l.mu.Unlock()
+		ca.forceClose()
+		cb.forceClose()
+
+		return nil, &net.OpError{Op: "dial", Net: "tcp", Addr: raddr, Err: os.NewSyscallError("connect", syscall.ECONNREFUSED)}
+	}
 	l.backlog = append(l.backlog, cb)
 	l.mu.Unlock()
 	l.signal()
